@@ -15,12 +15,17 @@ fi
 out=${VERIF_OUT:-$PWD/sweep-out}
 mkdir -p "$out"
 bin="$out/sim-snapshot"
-cp /verif/target/release/sim "$bin" || { echo "no built simulator"; exit 2; }
-# the cross-process phase of C04 needs the unhooked build of the SAME sources
-if [ -x /verif/target/unhooked/release/sim ]; then
-  cp /verif/target/unhooked/release/sim "$out/sim-unhooked-snapshot"
-  export VERIF_UNHOOKED_BIN="$out/sim-unhooked-snapshot"
+# The binaries are copied ONCE per output directory, at the first invocation (when /verif/target holds a
+# build of the unchanged tree): later invocations with other seeds reuse the copy, because /verif/target
+# may meanwhile hold a build of /repo with a seeded breaking change applied (tools_try_mutant.sh).
+if [ ! -x "$bin" ]; then
+  cp /verif/target/release/sim "$bin" || { echo "no built simulator"; exit 2; }
+  # the cross-process phase of C04 needs the unhooked build of the SAME sources
+  if [ -x /verif/target/unhooked/release/sim ]; then
+    cp /verif/target/unhooked/release/sim "$out/sim-unhooked-snapshot"
+  fi
 fi
+[ -x "$out/sim-unhooked-snapshot" ] && export VERIF_UNHOOKED_BIN="$out/sim-unhooked-snapshot"
 rc=0
 for id in "${ids[@]}"; do
   start=$(date +%s)
